@@ -7,10 +7,6 @@ From DV Require Import Model.PyPrims Model.Tree Model.C07Model Model.C07Spec
 Import ListNotations.
 Open Scope Z_scope.
 
-Lemma uniform_perm t t' :
-  Permutation (nonroot_lens t) (nonroot_lens t') -> uniform_lengths t -> uniform_lengths t'.
-Proof. intros P [H|H]; [left | right]; eapply Permutation_Forall; eauto. Qed.
-
 (* ---------- identities ---------- *)
 Lemma preorder_node i x l e ks : preorder (T i x l e ks) = T i x l e ks :: flat_map preorder ks.
 Proof. reflexivity. Qed.
@@ -86,10 +82,9 @@ Qed.
 
 (* ---------- tail of reseed_at / encode_bipartitions ---------- *)
 Lemma post_reseed_equivU t r coll supp t' r' :
-  post_reseed t r coll supp = (t', r') -> NoDup (leaf_taxa t) ->
-  (coll && not_rooted r = true -> uniform_lengths t) -> equivU t t'.
+  post_reseed t r coll supp = (t', r') -> NoDup (leaf_taxa t) -> equivU t t'.
 Proof.
-  unfold post_reseed. intros H ND U.
+  unfold post_reseed. intros H ND.
   destruct (coll && not_rooted r) eqn:E.
   - destruct (collapse_basal t) as [t1 did] eqn:EC.
     assert (E1 : equivU t t1) by (eapply collapse_basal_equivU; eauto).
@@ -134,10 +129,9 @@ Definition two_kids (t : tree) : Prop := (2 <= length (t_kids t))%nat.
 Lemma reseed_at_equivU t r n upd coll supp t' r' :
   reseed_at t r n upd coll supp = Ok (t', r') ->
   is_internal_node n t -> two_kids t -> NoDup (leaf_taxa t) ->
-  (coll && not_rooted r = true -> uniform_lengths t) ->
   equivU t t'.
 Proof.
-  unfold reseed_at. intros H [X [HX HXk]] H2 ND U.
+  unfold reseed_at. intros H [X [HX HXk]] H2 ND.
   apply bind_ok in H. destruct H as [t1 [H1 Hp]]. inversion Hp as [Hp']. clear Hp.
   destruct (t_id t =? n) eqn:E.
   - inversion H1; subst t1. eapply post_reseed_equivU; eauto.
@@ -146,8 +140,7 @@ Proof.
     rewrite HL in H1. cbn [andb] in H1. inversion H1; subst t1.
     destruct (reseed_rot_equivU t n t2 X ER HX HXk (or_intror H2) ND) as [E1 P1].
     eapply equivU_trans; [exact E1|].
-    eapply post_reseed_equivU; [eassumption | eapply equivU_nodup; eauto |].
-    intros C. eapply uniform_perm; eauto.
+    eapply post_reseed_equivU; [eassumption | eapply equivU_nodup; eauto].
 Qed.
 
 Lemma reseed_at_flag t r n upd coll supp t' r' :
@@ -168,7 +161,7 @@ Proof.
   destruct (parent_of og t) as [p|] eqn:EP; [|discriminate].
   apply bind_ok in H. destruct H as [[t1 r1] [H1 H]]. cbn [fst snd] in H.
   assert (E1 : equivU t t1).
-  { eapply reseed_at_equivU; eauto; [eapply parent_internal; eauto | cbn; discriminate]. }
+  { eapply reseed_at_equivU; eauto. eapply parent_internal; eauto. }
   assert (F1 : r1 = r).
   { destruct (reseed_at_flag _ _ _ _ _ _ _ _ H1) as [F|[F _]]; [assumption | discriminate]. }
   destruct t1 as [i x l e ks]. destruct (i =? p); [|discriminate].
@@ -189,11 +182,10 @@ Lemma reroot_at_node_equivU t r n upd supp coll t' r' :
 Proof.
   unfold reroot_at_node. intros H HI H2 ND.
   apply bind_ok in H. destruct H as [[t1 r1] [H1 H]]. cbn [fst] in H.
-  assert (E1 : equivU t t1) by (eapply reseed_at_equivU; eauto; discriminate).
+  assert (E1 : equivU t t1) by (eapply reseed_at_equivU; eauto).
   destruct upd.
   - inversion H as [Hp]. split.
-    + eapply equivU_trans; [exact E1|]. eapply post_reseed_equivU; [eassumption | eapply equivU_nodup; eauto |].
-      rewrite andb_false_r. discriminate.
+    + eapply equivU_trans; [exact E1|]. eapply post_reseed_equivU; [eassumption | eapply equivU_nodup; eauto].
     + destruct (post_reseed_flag _ _ _ _ _ _ Hp) as [F|[_ [F _]]]; [assumption | discriminate].
   - inversion H; subst. split; [assumption | reflexivity].
 Qed.
@@ -252,10 +244,10 @@ Qed.
 (* ---------- ladderize / reorder / randomly_rotate / randomly_reorient ---------- *)
 Lemma reorient_equivU t r n upd sc t' r' :
   reorient t r n upd sc = Ok (t', r') ->
-  NoDup (ids t) -> two_kids t -> NoDup (leaf_taxa t) -> uniform_lengths t ->
+  NoDup (ids t) -> two_kids t -> NoDup (leaf_taxa t) ->
   equivU t t' /\ (r' = r \/ (not_rooted r = true /\ r' = Some false)).
 Proof.
-  unfold reorient. intros H NI H2 ND U.
+  unfold reorient. intros H NI H2 ND.
   destruct n as [n|]; [|discriminate].
   destruct (find_node n t) as [X|] eqn:EX; [|discriminate].
   apply bind_ok in H. destruct H as [[t1 r1] [H1 H]]. cbn [fst snd] in H.
